@@ -31,3 +31,17 @@ package hailpb
 //@   ensures [size] err == nil ==> 1 <= pageSize && pageSize <= 1000 && (old(request.PageSize) == 0 ==> pageSize == 50) && upperBound - nextIndex <= pageSize && (upperBound == len(all) || upperBound - nextIndex == pageSize)
 //@   ensures [last-page] err == nil && nextIndex + pageSize > len(all) ==> resp.NextPageToken == ""
 //@   replay HailListHails(request.PageSize)
+//@
+//@ // C15: page tokens are written and read with the same base64 alphabet (the chain-of-pages argument assumes that a
+//@ // token handed out is accepted again; the codec itself is a library assumption)
+//@ property C15
+//@ func encodePageToken(pageToken) (res, err)
+//@   inline
+//@   track EncodeToString
+//@   ensures [alphabet] calls(EncodeToString) > old(calls(EncodeToString)) ==> lastarg(EncodeToString, 0) == base64.StdEncoding
+//@   ensures [encoded] pageToken != nil && err == nil ==> calls(EncodeToString) == old(calls(EncodeToString)) + 1
+//@ func decodePageToken(token, pageToken) (err)
+//@   inline
+//@   track DecodeString
+//@   ensures [alphabet] calls(DecodeString) > old(calls(DecodeString)) ==> lastarg(DecodeString, 0) == base64.StdEncoding
+//@   ensures [decoded] token != "" ==> calls(DecodeString) == old(calls(DecodeString)) + 1
